@@ -15,7 +15,7 @@ ENGINE = {'name': 'mcodec',
          'FromChunks/ToChunks, RDP TPKT/X.224/NegReq/CorrInfo/Token) byte strings of EVERY length 0..bound+4 (random, and a valid message cut or '
          'extended to that length), generated well-formed values over the full field ranges (edge values 0,1,max-1,max), single-byte corruptions, and for every variable-length part (RDPToken.Optional, MessageTransport.Content, the Winbox payload / user name) each terminator/delimiter pattern (CR LF, CR, LF, NUL, =, +r, ., CR LF CR LF, FF, 06) inserted and overwritten at every position followed by 0..3 more bytes, through both FromBytes and ToBytes, and every chunk header byte (length, type) of 1-, 2- and 3-chunk Winbox messages set to 00/01/06/FE/FF and to the neighbours of the right value; valid Winbox payloads RE-CHUNKED at every boundary into two and at sampled pairs of boundaries into three self-consistent chunks (only the canonical chunking may parse); for every exact length check lengths congruent to the accepted one modulo 2^8 (valid message + random bytes) and modulo 2^16 (size + k*65536 zero bytes, k = 1..3, carried in the case term as a length: CFromZeros); sequences of k = 2..6 consecutive ToBytes calls (same and different types, directly and through FromBytes, and a request composed from TPKT+X.224+token+negreq+corrinfo) whose results are ALL compared after the last call, under GOMAXPROCS(1) and from 8 concurrent callers (key tobytes-result-aliased; oracle only - to_bytes of the model is a pure function, so a result that changes after a later call has no counterpart in it); '
          'non-trivial = length within a size bound +-2 or a generated value. C04: whole streams, prefixes, self-consistent length headers at every '
-         'payload length, CR/LF placements, random bytes, every inner RDP length/indicator field (token Length with and without its LengthIndicator, the indicator alone, negreq and corrinfo length, TPKT length, X.224 indicator, both outer fields together) swept over real-20..real+20, 0, 1, 255, 65535 with the outer framing kept at the real size, default and filtered configurations, TCP- and UDP-like addresses; allocation measured '
+         'payload length, CR/LF placements, random bytes, every optional RDP payload element (routing element none/cookie/token/custom, negotiation request with the correlation flag set and unset, correlation info) complete, truncated at every length 0..full-1, over-long and doubled with self-consistent TPKT/X.224 lengths, every inner RDP length/indicator field (token Length with and without its LengthIndicator, the indicator alone, negreq and corrinfo length, TPKT length, X.224 indicator, both outer fields together) swept over real-20..real+20, 0, 1, 255, 65535 with the outer framing kept at the real size, default and filtered configurations, TCP- and UDP-like addresses; allocation measured '
          'with runtime.MemStats around Match. C06: every prefix of valid rdp/winbox streams (with trailing data, mutations, two-chunk winbox '
          'messages), each evaluated twice on fresh connections that count socket reads and are re-read afterwards. C14: per-protocol abstract '
          'messages encoded from the wire definition x every filter configuration x every single-field corruption, verdict compared with the '
